@@ -56,7 +56,7 @@ SseText(bs, term, ending) ==
 \* ---- SSE block shapes
 Pay1 == IF Tier = 1 THEN {P_empty, P_x, P_e, P_eurox, P_xsp}
         ELSE {P_empty, P_x, P_e, P_eurox, P_xsp, P_colon, P_emoji}
-Pay2 == IF Tier = 1 THEN {P_empty, P_x, P_e} ELSE {P_empty, P_x, P_e, P_eurox, P_xsp}
+Pay2 == {P_empty, P_x, P_e}
 
 ShOne  == {<<D(p)>> : p \in Pay1} \cup {<<Dn(p)>> : p \in Pay1}
 ShTwo  == {<<D(p), D(q)>> : p \in Pay2, q \in Pay2}
@@ -64,19 +64,20 @@ ShCom  == {<<C, D(P_x)>>, <<D(P_e), C>>, <<D(P_x), C, D(P_e)>>}
 ShEvt  == {<<E, D(P_x)>>, <<D(P_e), I>>, <<R, Dn(P_x)>>} \cup (IF Tier = 1 THEN {} ELSE {<<E, I, R, D(P_eurox), D(P_e)>>})
 ShOnly == {<<C>>}
 ShFirst == ShOne \cup ShTwo \cup ShCom \cup ShEvt \cup ShOnly
-ShNext  == {<<Dn(P_e)>>, <<D(P_empty), D(P_x)>>} \cup (IF Tier = 1 THEN {} ELSE {<<C>>, <<E, D(P_eurox)>>, <<Dn(P_xsp)>>})
+\* first blocks of two-block streams, second blocks, third blocks
+ShLead  == ShOne \cup ShCom \cup ShOnly \cup (IF Tier = 1 THEN {} ELSE {<<E, D(P_x)>>, <<D(P_e), I>>, <<R, Dn(P_x)>>})
+ShNext  == {<<Dn(P_e)>>, <<D(P_empty), D(P_x)>>} \cup (IF Tier = 1 THEN {} ELSE {<<C>>})
 ShThird == {<<Dn(P_x)>>, <<D(P_e), D(P_empty)>>}
 
-SseBlockSeqs ==
-  {<<a>> : a \in ShFirst}
-  \cup {<<a, b>> : a \in (IF Tier = 1 THEN ShOne \cup ShCom \cup ShOnly ELSE ShFirst), b \in ShNext}
-  \cup (IF Tier = 1 THEN {<<a, b, c>> : a \in {<<Dn(P_e)>>, <<C>>}, b \in {<<D(P_x), D(P_e)>>}, c \in ShThird}
-        ELSE {<<a, b, c>> : a \in ShOne \cup ShOnly, b \in ShNext, c \in ShThird})
+Seqs1 == {<<a>> : a \in ShFirst}
+Seqs2 == {<<a, b>> : a \in ShLead, b \in ShNext}
+Seqs3 == {<<a, b, c>> : a \in {<<Dn(P_e)>>, <<C>>}, b \in {<<D(P_x), D(P_e)>>}, c \in ShThird}
 
-SseTerms == IF Tier = 1 THEN {"lf", "crlf"} ELSE {"lf", "crlf", "mixed"}
 Endings == {"blank", "noblank", "cut"}
+SseOf(seqs, terms) == {[mode |-> "sse", bytes |-> Encode(SseText(bs, t, e))] : bs \in seqs, t \in terms, e \in Endings}
 
-SseStreams == {[mode |-> "sse", bytes |-> Encode(SseText(bs, t, e))] : bs \in SseBlockSeqs, t \in SseTerms, e \in Endings}
+SseStreams == SseOf(Seqs1 \cup Seqs2 \cup Seqs3, {"lf", "crlf"})
+              \cup (IF Tier = 1 THEN {} ELSE SseOf(Seqs1 \cup Seqs3, {"mixed"}))
 
 \* ---- NDJSON records (canonical JSON texts: json.dumps(json.loads(r), ensure_ascii=False, separators=(",",":")) = r)
 J_one   == <<49>>                                            \* 1
@@ -87,14 +88,15 @@ J_sp    == <<34, 120, 32, 121, 34>>                          \* "x y"
 J_emoji == <<34, 128512, 34>>                                \* "U+1F600"
 J_nest  == <<123, 34, 97, 34, 58, 123, 34, 98, 34, 58, 91, 93, 125, 125>>   \* {"a":{"b":[]}}
 
-Recs == IF Tier = 1 THEN {J_one, J_str, J_obj, J_arr} ELSE {J_one, J_str, J_obj, J_arr, J_sp, J_emoji, J_nest}
+Recs  == IF Tier = 1 THEN {J_one, J_str, J_obj, J_arr} ELSE {J_one, J_str, J_obj, J_arr, J_sp, J_emoji}
+Recs2 == IF Tier = 1 THEN Recs ELSE {J_one, J_str, J_obj, J_emoji}
 Recs3 == {J_one, J_str, J_obj}
 
 RecSeqs ==
-  {<<a>> : a \in Recs}
-  \cup {<<a, b>> : a \in Recs, b \in Recs}
+  {<<a>> : a \in Recs \cup (IF Tier = 1 THEN {} ELSE {J_nest})}
+  \cup {<<a, b>> : a \in Recs, b \in Recs2}
   \cup {<<a, <<>>, b>> : a \in Recs3, b \in Recs3}          \* blank line between two records
-  \cup {<<a, b, c>> : a \in Recs3, b \in Recs3, c \in (IF Tier = 1 THEN {J_str} ELSE Recs3)}
+  \cup {<<a, b, c>> : a \in Recs3, b \in Recs3, c \in {J_str}}
 
 NdTerms == IF Tier = 1 THEN {"lf", "crlf"} ELSE {"lf", "crlf", "mixed"}
 NdStreams == {[mode |-> "ndjson", bytes |-> Encode(Render(rs, t, cutLast))] : rs \in RecSeqs, t \in NdTerms, cutLast \in BOOLEAN}
